@@ -48,6 +48,13 @@ type tcase struct {
 	Source string `json:"source"` // envelope JSON
 	Opts   optSet `json:"opts"`
 	Via    string `json:"via"` // lib | cli | bulk
+	// stamps the source header carries besides those the correction definition
+	// names (any envelope may have been stamped)
+	HeadStamps [][2]string `json:"head_stamps,omitempty"`
+	// Op "correct-extra": one more member in the raw options
+	Extra *extraIn `json:"extra,omitempty"`
+	// Op "reuse": the option values were used for another source first
+	Reuse *reuseIn `json:"reuse,omitempty"`
 }
 
 const (
@@ -265,6 +272,7 @@ func prepare(t tcase) (*gobl.Envelope, mergedDef, error) {
 			env.Head.AddStamp(&head.Stamp{Provider: cbc.Key(p), Value: stampVal + "-H"})
 		}
 	}
+	installHeadStamps(env, t.HeadStamps)
 	return env, m, nil
 }
 
@@ -645,6 +653,16 @@ func Run(c *core.Ctx) int {
 	}
 	var cases []tcase
 	per := c.Pick(5, 0)
+	shapes := shapeSources(c, invoices)
+	for _, s := range shapes {
+		env, err := parseEnv(s.data)
+		if err != nil {
+			continue
+		}
+		for _, o := range shapeOptSets(c, goDef(env)) {
+			cases = append(cases, tcase{Op: "correct", Name: s.name, Source: string(s.data), Opts: o, Via: "lib"})
+		}
+	}
 	for i, s := range invoices {
 		sets := allOptSets(c, per)
 		if c.Thorough() && strings.HasPrefix(s.name, "x/") && i%3 != 0 {
@@ -680,6 +698,8 @@ func Run(c *core.Ctx) int {
 		}
 		cases = append(cases, t)
 	}
+	cases = append(cases, reuseCases(c, append(append([]source{}, invoices...), shapes...))...)
+	cases = append(cases, extraCases(c, append(append([]source{}, invoices...), shapes...))...)
 	runCases(c, cases, goblBin, false)
 	if after := conc.Snap(); after.Digest != regBefore.Digest {
 		c.Fail("", "shared registries changed during the correct/replicate sweep: "+strings.Join(regBefore.Diff(after, 4), " ;; "), map[string]any{"diff": regBefore.Diff(after, 10)})
@@ -700,7 +720,20 @@ func runCases(c *core.Ctx, cases []tcase, goblBin string, verbose bool) {
 	var pends []pend
 	var ext []tcase // cli / bulk
 	var libCases []tcase
+	var extraExt []tcase
 	for _, t := range cases {
+		if t.Op == "reuse" {
+			runReuse(c, t)
+			continue
+		}
+		if t.Op == "correct-extra" {
+			if t.Via == "lib" {
+				runExtraLib(c, t)
+			} else {
+				extraExt = append(extraExt, t)
+			}
+			continue
+		}
 		if t.Via != "lib" {
 			ext = append(ext, t)
 		} else {
@@ -800,6 +833,7 @@ func runCases(c *core.Ctx, cases []tcase, goblBin string, verbose bool) {
 		}
 	}
 	runExternal(c, ext, goblBin, today)
+	runExtraExternal(c, extraExt, goblBin)
 }
 
 func orDash(s string) string {
